@@ -12,7 +12,8 @@ Next == /\ l <= Len(Trace)
         /\ LET e == Trace[l] IN
            IF e.ev = "struct" /\ StructOK(e.shape, e.obs) THEN TRUE
            ELSE PrintT(<<"REJ", l, "C20", IF Dev_CheckAcceptsUnsound(e) THEN "Dev_CheckAcceptsUnsound"
-                                    ELSE IF Dev_SetWritesUntaggedNamesake(e) THEN "Dev_SetWritesUntaggedNamesake" ELSE "NONE">>)
+                                    ELSE IF Dev_SetWritesUntaggedNamesake(e) THEN "Dev_SetWritesUntaggedNamesake"
+                                    ELSE IF Dev_StringIDOnNamedTypePanics(e) THEN "Dev_StringIDOnNamedTypePanics" ELSE "NONE">>)
 Spec == Init /\ [][Next]_l
 AllConsumed == TLCGet("stats").diameter - 1 = Len(Trace)
 =============================================================================
